@@ -19,6 +19,14 @@ Program term grammar (plain tuples, JSON-able):
 """
 import sys
 
+OPTION_NAMES = [
+    "DUMP_PRE_ERROR_STATE", "DUMP_EXCEPTIONS", "DUMP_SCHEDULE_TASK", "DUMP_CONTINUE_TASK",
+    "DUMP_SCHEDULE_BATCH", "DUMP_FLUSH_BATCH", "DUMP_DEPENDENCIES", "DUMP_COMPUTED",
+    "DUMP_NEW_TASKS", "DUMP_YIELD_RESULTS", "DUMP_QUEUED_RESULTS", "DUMP_CONTEXTS", "DUMP_SYNC",
+    "DUMP_STACK", "DUMP_SCHEDULER_STATE", "DUMP_SYNC_CALLS", "COLLECT_PERF_STATS",
+    "ENABLE_COMPLEX_ASSERTIONS", "KEEP_DEPENDENCIES",
+]
+
 # --------------------------------------------------------------------------------------------------
 # compile: annotate every task / leaf / stmt / ctx with an integer id
 
